@@ -69,6 +69,40 @@ def check_case(ctx, cs):
                 ctx.violate(site, tg + ["degree_setter"], small, {"degree_after_setter": got, "expected": o["B"]["deg"], "X==Y": X == Y})
         except Exception as e:
             ctx.violate(site, tg + ["degree_setter", "raises"], small, {"exception": repr(e)[:200]})
+    if pk == "same":
+        import math
+        from ..adapter import shape_floats as _sf
+        f_ = _sf(a)
+        pd_ = len(a["deg"])
+        # (1) a deep copy that re-assigns its own unweighted control points (getters not used before) still equals its source
+        if a["rat"]:
+            try:
+                X = build(a, **extra)
+                Y = copy.deepcopy(X)
+                Y.ctrlpts = [[c / q[-1] for c in q[:-1]] for q in f_["P"]]
+                if not (X == Y and Y == X) or (X != Y):
+                    ctx.violate(site, tg + ["copy_reassigns_own_ctrlpts"], small, {"X==Y": X == Y, "weights_of_copy": list(Y.weights)[:4]})
+            except Exception as e:
+                ctx.violate(site, tg + ["copy_reassigns_own_ctrlpts", "raises"], small, {"exception": repr(e)[:200]})
+        # (2) one interior knot moved to the next floating point number: far more than the comparison tolerance (10^-precision)
+        if "precision" not in extra:
+            try:
+                X = build(a)
+                Y = copy.deepcopy(X)
+                d_ = pd_ - 1
+                U = list(f_["kv"][d_])
+                p_ = a["deg"][d_]
+                if len(U) > 2 * (p_ + 1) and U[0] == 0.0 and U[-1] == 1.0:
+                    i_ = p_ + 1
+                    U[i_] = math.nextafter(U[i_], 2.0) if U[i_] < U[i_ + 1] else math.nextafter(U[i_], -1.0)
+                    if pd_ == 1:
+                        Y.knotvector = U
+                    else:
+                        setattr(Y, "knotvector_" + "uvw"[d_], U)
+                    if (X == Y) or (Y == X) or not (X != Y):
+                        ctx.violate(site, tg + ["knot_moved_one_ulp"], small, {"X==Y": X == Y, "knot": U[i_]})
+            except Exception as e:
+                ctx.violate(site, tg + ["knot_moved_one_ulp", "raises"], small, {"exception": repr(e)[:200]})
     # two shapes defined from ONE list of points handed to both, one of them then edited in place through the list its getter
     # returns: the other keeps its definition, the two are unequal
     if pk == "same":
